@@ -40,6 +40,7 @@ NAME_POOLS = {
     "same": ["e"],
     "reuse": ["e", "j", "t"],
     "argn": ["arg_0", "arg_1", "arg_2", "arg_3", "arg_5"],
+    "argmix": ["e", "j", "arg_0", "t", "arg_1"],  # hand-written names next to names a front end handed out
     "astnames": ["id", "value", "args", "body", "elts", "slice", "func", "n", "s"],
 }
 
